@@ -121,8 +121,9 @@ pub fn pkcs8_of(spec: KeySpec) -> Vec<u8> {
     }
 }
 
-pub fn make_key(spec: KeySpec) -> Key {
-    let private = match spec.kind {
+/// The private key object of a spec (callable from any thread; `key()` caches per thread).
+pub fn make_private(spec: KeySpec) -> PrivateKey {
+    match spec.kind {
         KeyKind::Ed => {
             let (s, p) = ed_pair(spec.seed);
             let mut both = s;
@@ -139,7 +140,11 @@ pub fn make_key(spec: KeySpec) -> Key {
         KeyKind::Rsa4096S512 => PrivateKey::from_pkcs8(RSA4096, SignatureScheme::RsaSsaPssSha512).expect("rsa"),
         KeyKind::RsaUnknown => PrivateKey::from_pkcs8(RSA2048, SignatureScheme::RsaSsaPssSha256).expect("rsa"),
         KeyKind::EcdsaBare => PrivateKey::from_pkcs8(&ecdsa_pk8(spec.seed), SignatureScheme::EcdsaP256Sha256).expect("ecdsa key"),
-    };
+    }
+}
+
+pub fn make_key(spec: KeySpec) -> Key {
+    let private = make_private(spec);
     let mut public = private.public().clone();
     if spec.kind == KeyKind::EcdsaBare {
         public = PublicKey::from_ecdsa(public.as_bytes().to_vec()).expect("bare ecdsa key");
